@@ -230,6 +230,23 @@ CHECK_DEADLOCK FALSE
     ctx.extra["max_ops"] = max(len(s["ops"]) for s in scripts)
     # 3. + 4. replay and validate; then seed-dependent random extras
     judge(ctx, wd, scripts)
+    # frames with EQUAL datagrams (the same register polled twice in one frame): the last datagram equal to an
+    # earlier one, an earlier pair equal to each other, all equal.  Added after a seeded change (the 'more' flag
+    # decided by comparing a datagram's value with the last one) went unnoticed: TLC's families never repeat one.
+    dups = []
+    for k, sc in enumerate(s for s in scripts if len(s["ops"]) >= 3):
+        if k % (7 if ctx.quick else 2):
+            continue
+        ops = [dict(o) for o in sc["ops"]]
+        j = (k // 7) % (len(ops) - 1)
+        variants_ = [ops[:-1] + [dict(ops[j])], [dict(ops[j])] + ops[1:j] + [dict(ops[j])] + ops[j + 1:],
+                     [dict(ops[0]) for _ in ops[:4]]]
+        for v in variants_:
+            d = dict(sc, ops=v, duplicates=True)
+            d.pop("accepted", None)
+            dups.append(d)
+    judge(ctx, wd, dups)
+    ctx.extra["scripts_with_equal_datagrams"] = len(dups)
     extra = [random_script(ctx.rng) for _ in range(100 if ctx.quick else 1500)]
     judge(ctx, wd, extra)
     ctx.exhaustive = True
